@@ -120,6 +120,9 @@ Proof.
   all: try solve [left; split; [reflexivity|];
                   cbn [rx_pc] in R; destruct R as [[rest Hrx] Hack]; cbn [is_ackp] in Hack; try discriminate Hack;
                   do 3 eexists; repeat split; first [eassumption|reflexivity]].
-  Show.
+  all: try solve [left; split; [reflexivity|];
+                  cbn [rx_pc] in R; destruct R as [[rest Hrx] Hack];
+                  match goal with Hx : g_rx _ = ?p :: ?r, E1 : get_id _ = Some ?i |- _ =>
+                    exists p, r, i; repeat split; first [assumption|reflexivity] end].
 Qed.
 
